@@ -165,6 +165,27 @@ where
     }
 }
 
+/// Verification hooks: crate-visible entry points to the build stages.
+#[cfg(feature = "verif_hooks")]
+pub(crate) fn verif_rank_calc<F>(graph: &Dag<F, Edge, FnIdInner>) -> Vec<crate::Rank> {
+    RankCalc::calc(graph)
+}
+
+/// Verification hooks: crate-visible entry points to the build stages.
+#[cfg(feature = "verif_hooks")]
+pub(crate) fn verif_augment<F>(graph: &mut Dag<F, Edge, FnIdInner>, ranks: &[crate::Rank])
+where
+    F: DataAccessDyn,
+{
+    DataEdgeAugmenter::augment(graph, ranks)
+}
+
+/// Verification hooks: crate-visible entry points to the build stages.
+#[cfg(all(feature = "verif_hooks", feature = "async"))]
+pub(crate) fn verif_predecessor_counts<F>(graph: &Dag<F, Edge, FnIdInner>) -> crate::EdgeCounts {
+    PredecessorCountCalc::calc(graph)
+}
+
 impl<F> Default for FnGraphBuilder<F> {
     fn default() -> Self {
         Self {
